@@ -336,8 +336,18 @@ func H_quote(n int) {
 
 // H_unquote: unquoteString on arbitrary bytes between quotes: returns, never panics; escapes
 // decode per the language (\\ \' \n \r \t \b \f \uXXXX).
-func H_unquote(n int) {
-	body := verifString(n)
+var c01UnquotePrefix = []string{"", "\\u", "a\\u", "\\u0", "\\"}
+
+func H_unquote(n int) { H_unquotePre(0, n) }
+
+// H_unquotePre: the same with a fixed prefix before the n symbolic bytes (escape sequences that
+// need several more characters).
+func H_unquotePre(pre, n int) {
+	body := c01UnquotePrefix[pre] + verifString(n)
+	if pre != 0 {
+		_, _ = unquoteString("'" + body + "'") // must return (no panic)
+		return
+	}
 	u, err := unquoteString("'" + body + "'")
 	verifObserve("body", body)
 	if n == 2 && body[0] == '\\' {
